@@ -13,6 +13,7 @@ THOROUGH_TIMEOUT_MS = 60000
 
 def locate(world, cname, override_src=None):
     """contract name -> (record, defining class qual | None)"""
+    cname = cname.split(":")[0]        # "<function>:<variant>" = contract variant of the same function (overload by argument kind)
     parts = cname.split(".")
     if parts[-1] == "setter":
         cls, prop = parts[0], parts[1]
